@@ -31,9 +31,12 @@ type scenario struct {
 	Procs    int    `json:"procs"`
 	Pre      string `json:"pre_existing_lock_file"` // none | empty | garbage | dead-pid | foreign-live-then-dies
 	Crash    bool   `json:"one_crash_allowed"`
+	Cancel   bool   `json:"waiter_p102_may_be_cancelled"` // Ctrl-C for one process: its context is cancelled at an arbitrary point
 }
 
-func (s scenario) name() string { return fmt.Sprintf("procs=%d/pre=%s/crash=%v", s.Procs, s.Pre, s.Crash) }
+func (s scenario) name() string {
+	return fmt.Sprintf("procs=%d/pre=%s/crash=%v/cancel=%v", s.Procs, s.Pre, s.Crash, s.Cancel)
+}
 
 var nop = console.NewFromSugared(zap.NewNop().Sugar(), zapcore.ErrorLevel)
 var scratch string
@@ -71,6 +74,7 @@ func (sc scenario) run(t *testing.T, cfg vs.Config) explore.Exec {
 	finished := map[int]bool{}
 	lockErr := map[int]error{}
 	var doubleDetail string
+	cancelled102 := false
 
 	res := vs.Run(t, cfg, func() {
 		ctx := console.WithLogger(context.Background(), nop)
@@ -86,13 +90,34 @@ func (sc scenario) run(t *testing.T, cfg vs.Config) explore.Exec {
 			})
 			wg.Done()
 		}
+		cancelCtx, cancel102 := context.WithCancel(ctx)
+		defer cancel102()
+		if sc.Cancel {
+			vs.Go("ctrl-c-for-p102", func() {
+				vs.Point("ctrl-c")
+				vs.Event("p102 is interrupted (context cancelled)")
+				cancelled102 = true
+				cancel102()
+			})
+		}
 		for p := 1; p <= sc.Procs; p++ {
 			pid := 100 + p
 			wg.Add(1)
 			vs.Go(fmt.Sprintf("proc-%d", pid), func() {
 				w.Bind(pid)
 				locker := locking.NewWorkspaceLocker()
-				if err := locker.Lock(ctx); err != nil {
+				pctx := ctx
+				if pid == 102 {
+					pctx = cancelCtx
+				}
+				if err := locker.Lock(pctx); err != nil {
+					if pid == 102 && cancelled102 && pctx.Err() != nil {
+						// an interrupted waiter gives up: that is not an error of the lock
+						vs.Event("p102 gives up: %v", err)
+						vs.Locked(func() { finished[pid] = true })
+						wg.Done()
+						return
+					}
 					lockErr[pid] = err
 					vs.Locked(func() { finished[pid] = true })
 					wg.Done()
@@ -172,6 +197,11 @@ func scenarios(thorough bool) []scenario {
 				out = append(out, scenario{Procs: n, Pre: pre, Crash: crash})
 			}
 		}
+	}
+	// a waiter that is interrupted while others hold / contend (needs a third process to expose damage)
+	out = append(out, scenario{Procs: 3, Pre: "none", Cancel: true}, scenario{Procs: 2, Pre: "none", Cancel: true})
+	if thorough {
+		out = append(out, scenario{Procs: 3, Pre: "dead-pid", Cancel: true}, scenario{Procs: 3, Pre: "none", Cancel: true, Crash: true})
 	}
 	return out
 }
